@@ -310,6 +310,14 @@ class MethodsMixin(object):
                 if isinstance(c, HCList):
                     st.heap[oid] = HCList(c.items + [x])
                 else:
+                    if c.ek == "str" and isinstance(x, VOpt):
+                        self.safety(st, "TypeError", z3.Not(x.isnone), node, "None appended to a list of strings")
+                        x = x.val
+                    if c.ek == "str" and isinstance(x, VPy):
+                        # a list the contract treats as a list of strings: anything else put into it is a TypeError later
+                        # (''.join); required here
+                        self.safety(st, "TypeError", PyVal.is_pstr(x.e), node, "non-string appended to a list of strings")
+                        x = VStr(PyVal.ps(x.e))
                     xe = self.coerce(x, c.ek, node)
                     arr2 = z3.Store(c.arr, c.n, xe)
                     st.heap[oid] = HList(c.ek, c.n + 1, arr2)
